@@ -75,6 +75,10 @@ Definition ext_timer (e : client_ext) (s u : Z) : client_ext := mkCExt s u (xSca
 Definition ext_scaled (e : client_ext) (sc : option (Z * Z)) : client_ext := mkCExt (xDefS e) (xDefU e) sc (xLife e).
 Definition ext_life (e : client_ext) (l : Z) : client_ext := mkCExt (xDefS e) (xDefU e) (xScaled e) l.
 
+(* a client's pixel translation state: [tTo] = cl->format (format code, see fmt_bpp below), [tFrom] = the
+   server format cl->translateFn and its lookup table were built for *)
+Record xlate : Type := mkX { tFrom : Z; tTo : Z }.
+
 Record client : Type := mkClient {
   cM : region;            (* modifiedRegion *)
   cC : region;            (* copyRegion *)
@@ -91,7 +95,7 @@ Record client : Type := mkClient {
   cNewFBPending : bool;   (* newFBSizePending *)
   cReqChange : Z;         (* requestedDesktopSizeChange *)
   cLastErr : Z;           (* lastDesktopSizeChangeError *)
-  cBpp : Z;               (* bytes per pixel of the client's format (fixed at connection) *)
+  cBpp : xlate;           (* the client's pixel translation: cl->format and what cl->translateFn was selected for *)
   cPW : Z; cPH : Z;       (* size of the client's own picture *)
   cPic : pic;             (* the client's picture (decoded by the RFB semantics) *)
   cExt : client_ext
@@ -105,7 +109,7 @@ Record state_ext : Type := mkSExt {
 }.
 
 Record state : Type := mkState {
-  sW : Z; sH : Z; sBpp : Z;        (* width, height, bytes per pixel *)
+  sW : Z; sH : Z; sBpp : Z;        (* width, height, format code of the server format (see fmt_bpp) *)
   sFBid : Z;                       (* identity of the current frameBuffer (C16) *)
   sFB : pic;
   sCursor : option cursor_box;     (* screen->cursor (None = NULL) *)
@@ -160,7 +164,7 @@ Definition set_cext (c : client) (e : client_ext) : client :=
   mkClient (cM c) (cC c) (cDX c) (cDY c) (cR c) (cUseCopy c) (cShape c) (cCurChanged c) (cReady c)
            (cCurX c) (cCurY c) (cSliceY c) (cUseNewFB c) (cUseExt c) (cNewFBPending c) (cReqChange c)
            (cLastErr c) (cBpp c) (cPW c) (cPH c) (cPic c) e.
-Definition set_bpp (c : client) (b : Z) : client :=
+Definition set_bpp (c : client) (b : xlate) : client :=
   mkClient (cM c) (cC c) (cDX c) (cDY c) (cR c) (cUseCopy c) (cShape c) (cCurChanged c) (cReady c)
            (cCurX c) (cCurY c) (cSliceY c) (cUseNewFB c) (cUseExt c) (cNewFBPending c) (cReqChange c)
            (cLastErr c) b (cPW c) (cPH c) (cPic c) (cExt c).
@@ -175,14 +179,29 @@ Definition cDangling (c : client) : bool := xLife (cExt c) =? 3.
 Definition fbf (st : state) : Z -> Z -> Z := pic_get (sFB st).
 
 (* ------------------------------------------------------------------ pixel translation *)
-(* rfbInitServerFormat on a little-endian host: (redMax, greenMax, blueMax, shifts) per depth;
-   a client keeps the format of the server at the time it connected; when the server format
-   differs (after rfbNewFramebuffer) pixels go through the true-colour tables of translate.c:
+(* Pixel formats.  The fields [sBpp] / [cBpp] hold a FORMAT CODE  f = bytesPerPixel + 8 * b  where
+   b = 0 stands for the default bits per sample of that depth (5 for 2 bytes, 8 for 4 bytes; one-byte
+   pixels are always BGR233) and b > 0 is an explicit bitsPerSample handed to rfbNewFramebuffer
+   (16 bpp with 4 bits, 32 bpp with 10 bits, ...).  So the codes 1, 2, 4 are the formats of
+   rfbGetScreen(.., 2|5|8, 3, 1|2|4) and two valid codes are equal iff the formats are equal
+   ([fmt_ok] rejects the non-canonical spelling of a default).
+   rfbInitServerFormat on a little-endian host: redMax = greenMax = blueMax = 2^bits - 1, shifts
+   0, bits, 2*bits.  A client keeps the format of the server at the time it connected; when the server
+   format differs (after rfbNewFramebuffer: another depth OR the same depth with other bits per
+   sample) pixels go through the true-colour tables of translate.c:
    channel c -> (c * outMax + inMax/2) / inMax *)
-Definition fmt_of_bpp (bpp : Z) : Z * Z * Z * Z * Z * Z :=
-  if bpp =? 1 then (7, 7, 3, 0, 3, 6)
-  else if bpp =? 2 then (31, 31, 31, 0, 5, 10)
-  else (255, 255, 255, 0, 8, 16).
+Definition fmt_bpp (f : Z) : Z := f mod 8.
+Definition fmt_bits (f : Z) : Z :=
+  if f / 8 =? 0 then (if fmt_bpp f =? 2 then 5 else 8) else f / 8.
+Definition fmt_ok (f : Z) : bool :=
+  let b := fmt_bpp f in let o := f / 8 in
+  (0 <=? f) &&
+  (((b =? 1) && (o =? 0))
+   || ((b =? 2) && (0 <=? o) && (o <=? 5) && negb (o =? 5))
+   || ((b =? 4) && (0 <=? o) && (o <=? 10) && negb (o =? 8))).
+Definition fmt_of_bpp (f : Z) : Z * Z * Z * Z * Z * Z :=
+  if fmt_bpp f =? 1 then (7, 7, 3, 0, 3, 6)
+  else let b := fmt_bits f in let m := 2 ^ b - 1 in (m, m, m, 0, b, 2 * b).
 
 Definition translate (sb cb v : Z) : Z :=
   if sb =? cb then v
@@ -192,9 +211,13 @@ Definition translate (sb cb v : Z) : Z :=
     let ch sm ss cm cs := Z.shiftl ((Z.land (Z.shiftr v ss) sm * cm + sm / 2) / sm) cs in
     Z.lor (Z.lor (ch srm srs crm crs) (ch sgm sgs cgm cgs)) (ch sbm sbs cbm cbs).
 
-(* what a client must hold for framebuffer pixel (x,y) *)
+(* what reaches a client for framebuffer pixel (x,y): the pixel goes through the translation that was
+   selected for the client (cl->translateFn + lookup table, chosen by rfbSetTranslateFunction for the pair
+   (server format at that time, client format)).  This is the right picture only as long as the selection
+   is up to date: [TransOK] below (tFrom = the CURRENT server format) is the second half of the
+   convergence invariant; rfbNewFramebuffer has to re-select when the server format changes. *)
 Definition fb_for (st : state) (c : client) : Z -> Z -> Z :=
-  fun x y => translate (sBpp st) (cBpp c) (fbf st x y).
+  fun x y => translate (tFrom (cBpp c)) (tTo (cBpp c)) (fbf st x y).
 
 (* what goes on the wire in one FramebufferUpdate message *)
 Inductive wrect : Type :=
@@ -212,7 +235,7 @@ Definition wmsg : Type := (Z * list wrect)%type.   (* announced nRects, rectangl
 Definition new_client (st : state) : client :=
   mkClient (rgn_create_rect 0 0 (sW st) (sH st)) rgn_empty 0 0 rgn_empty
            false false false false (sCurX st) (sCurY st) 0 false false false 0 0
-           (sBpp st) (sW st) (sH st) (pic_build (sW st) (sH st) (fun _ _ => 0))
+           (mkX (sBpp st) (sBpp st)) (sW st) (sH st) (pic_build (sW st) (sH st) (fun _ _ => 0))
            (mkCExt 0 0 None 0).
 
 (* ------------------------------------------------------------------ rfbMarkRectAsModified *)
@@ -523,7 +546,8 @@ Definition tick_client (st : state) (c : client) : option (client * option wmsg)
    laid out like the server's formats) immediately followed by a non-incremental request for the
    whole screen - a conforming client does not rely on pixels it holds in the old format *)
 Definition setpf_client (st : state) (bpp : Z) (c : client) : client :=
-  let c1 := set_flags (set_bpp c bpp) (cUseCopy c) (cShape c) (cCurChanged c) true (cUseNewFB c) (cUseExt c) in
+  (* rfbSetTranslateFunction: selected for (current server format -> the client's new format) *)
+  let c1 := set_flags (set_bpp c (mkX (sBpp st) bpp)) (cUseCopy c) (cShape c) (cCurChanged c) true (cUseNewFB c) (cUseExt c) in
   request_client (sW st) (sH st) false 0 0 (sW st) (sH st) c1.
 
 (* ------------------------------------------------------------------ SetScale *)
@@ -551,6 +575,9 @@ Definition setscale_client (st : state) (n : Z) (c : client) : state_ext * clien
 (* the pixel value the application draws (the harness computes the same) *)
 Definition draw_value (bpp seed x y : Z) : Z :=
   (seed * 40503 + x * 257 + y * 4099 + 1) mod (256 ^ bpp).
+(* a few-colour pattern: the colours of the list laid out diagonally (palette encoders, hash collisions) *)
+Definition pal_value (bpp pat : Z) (cols : list Z) (x y : Z) : Z :=
+  (nth (Z.to_nat ((x * 3 + y * 5 + pat) mod (Z.of_nat (length cols)))) cols 0) mod (256 ^ bpp).
 
 (* ------------------------------------------------------------------ rfbNewFramebuffer *)
 Definition newfb_client (w h : Z) (c : client) : client :=
@@ -602,6 +629,15 @@ Definition rescale_client (w h oldW oldH : Z) (chain : list (Z * Z)) (c : client
       else (chain, unscaled)
   end.
 
+(* rfbNewFramebuffer: "if the server format changed (memcmp over the whole rfbPixelFormat: depth, maxima,
+   shifts ...) every client's translation is selected again" (main.c: setTranslateFunction(cl)) *)
+Definition reselect (oldf newf : Z) (c : client) : client :=
+  if newf =? oldf then c else set_bpp c (mkX newf (tTo (cBpp c))).
+
+(* the second half of the convergence invariant: every client's translation is the one for the current
+   server format *)
+Definition TransOK (st : state) : Prop := Forall (fun c => tFrom (cBpp c) = sBpp st) (sClients st).
+
 (* the client iterator of the library visits the newest client first; the model keeps the oldest first *)
 Fixpoint rescale_clients (w h oldW oldH : Z) (rev_clients : list client) (chain : list (Z * Z))
   : list (Z * Z) * list client :=
@@ -614,18 +650,25 @@ Fixpoint rescale_clients (w h oldW oldH : Z) (rev_clients : list client) (chain 
 
 Definition newfb_state (st : state) (w h bpp seed : Z) : state :=
   let '(chain, rcl) := rescale_clients w h (sW st) (sH st) (rev (sClients st)) [] in
-  mkState w h bpp (sFBid st + 1) (pic_build w h (draw_value bpp seed)) (sCursor st)
+  mkState w h bpp (sFBid st + 1) (pic_build w h (draw_value (fmt_bpp bpp) seed)) (sCursor st)
           (if sCurX st >=? w then w - 1 else sCurX st) (if sCurY st >=? h then h - 1 else sCurY st)
-          (sMaxRects st) (sSliceH st) (map (newfb_client w h) (rev rcl))
+          (sMaxRects st) (sSliceH st) (map (fun c => newfb_client w h (reselect (sBpp st) bpp c)) (rev rcl))
           (mkSExt (xDefer (sExt st)) (xNowS (sExt st)) (xNowU (sExt st)) chain).
 
 (* ------------------------------------------------------------------ SetDesktopSize *)
+(* rfbserver.c:3134-3143: after an accepted request EVERY other client's reason becomes "other client",
+   also when that client's own answer (reason "this client") has not been sent yet: F31.
+   notes/fix_C16_4.diff skips those clients; notes/fix_C16_4_model.diff flips this flag. *)
+Definition sds_keeps_own_answer : bool := false.
+
 Definition setdesktop_one (requester : bool) (hookres : Z) (c : client) : client :=
   if requester then
     let c1 := set_size_state c (cNewFBPending c) c16_reason_client hookres in
     (* failure: the reply is forced; success: deferred until the application resizes *)
     if hookres =? 0 then c1 else set_size_state c1 true (cReqChange c1) (cLastErr c1)
-  else if hookres =? 0 then set_size_state c (cNewFBPending c) c16_reason_other (cLastErr c)
+  else if hookres =? 0 then
+    if sds_keeps_own_answer && (cReqChange c =? c16_reason_client) then c
+    else set_size_state c (cNewFBPending c) c16_reason_other (cLastErr c)
   else c.
 
 Fixpoint setdesktop_clients_at (n : nat) (hookres : Z) (l : list client) : list client :=
@@ -659,7 +702,8 @@ Inductive op : Type :=
 | OpSetPixelFormat (c : nat) (bpp : Z)
 | OpSetScale (c : nat) (scale : Z)
 | OpClose (c : nat)                           (* rfbCloseClient(cl): sock = -1, the client stays in the list *)
-| OpReap.                                     (* what rfbProcessEvents does with closed clients: rfbClientConnectionGone *)
+| OpReap                                      (* what rfbProcessEvents does with closed clients: rfbClientConnectionGone *)
+| OpDrawPal (x1 y1 x2 y2 pat : Z) (cols : list Z).  (* the application paints a few-colour pattern *)
 
 Fixpoint upd_nth {A} (n : nat) (l : list A) (f : A -> option (A * option wmsg))
   : option (list A * option wmsg) :=
@@ -700,7 +744,7 @@ Definition step0 (st : state) (o : op) : option (state * list (nat * wmsg)) :=
       match mark_clip (sW st) (sH st) x1 y1 x2 y2 with
       | None => Some (st, [])
       | Some rc =>
-          let f := apply_raw (draw_value (sBpp st) seed) (fbf st) rc in
+          let f := apply_raw (draw_value (fmt_bpp (sBpp st)) seed) (fbf st) rc in
           Some (set_clients (set_fb st (pic_build (sW st) (sH st) f))
                             (map (mark_client (rect_rgn rc)) (sClients st)), [])
       end
@@ -744,7 +788,7 @@ Definition step0 (st : state) (o : op) : option (state * list (nat * wmsg)) :=
       | None => None
       end
   | OpNewFB w h bpp seed =>
-      if (0 <? w) && (0 <? h) && ((bpp =? 1) || (bpp =? 2) || (bpp =? 4))
+      if (0 <? w) && (0 <? h) && fmt_ok bpp
       then Some (newfb_state st w h bpp seed, []) else None
   | OpSetDesktopSize c w h ns hookres =>
       if (c <? length (sClients st))%nat then
@@ -789,6 +833,18 @@ Definition step0 (st : state) (o : op) : option (state * list (nat * wmsg)) :=
       if existsb cDangling (sClients st) then None
       else Some (set_clients st (map (fun cl => if cClosed cl then set_cext cl (ext_life (cExt cl) 2) else cl)
                                      (sClients st)), [])
+  | OpDrawPal x1 y1 x2 y2 pat cols =>
+      match cols with
+      | [] => None
+      | _ =>
+        match mark_clip (sW st) (sH st) x1 y1 x2 y2 with
+        | None => Some (st, [])
+        | Some rc =>
+            let f := apply_raw (pal_value (fmt_bpp (sBpp st)) pat cols) (fbf st) rc in
+            Some (set_clients (set_fb st (pic_build (sW st) (sH st) f))
+                              (map (mark_client (rect_rgn rc)) (sClients st)), [])
+        end
+      end
   end.
 
 (* operations addressed to one client need that client to be connected (its record may still be in the
